@@ -134,6 +134,25 @@ def cid_doc(r, variant):
     return write_pdf(objs, 1), ""
 
 
+def collection_doc(r, variant):
+    """a CID font without ToUnicode whose text comes from the character collection's predefined to-Unicode map, written
+    horizontally or vertically: the collection maps are process-wide and differ between the two writing modes
+    (arrows, brackets, punctuation), so a cache of them must be keyed by collection AND mode"""
+    ordering = ["Japan1", "Japan1", "Korea1", "Korea1", "GB1", "GB1", "CNS1", "CNS1"][variant % 8]
+    vertical = variant % 2 == 1
+    cids = list(range(96, 300, 3)) + list(range(630, 800, 2))
+    data = b"".join(c.to_bytes(2, "big") for c in cids)
+    objs = {1: {"Type": Name("Catalog"), "Pages": Ref(2)}, 2: {"Type": Name("Pages"), "Kids": [Ref(3)], "Count": 1},
+            7: {"Type": Name("Font"), "Subtype": Name("Type0"), "BaseFont": Name("Foo"), "Encoding": Name("Identity-V" if vertical else "Identity-H"),
+                "DescendantFonts": [Ref(8)]},
+            8: {"Type": Name("Font"), "Subtype": Name("CIDFontType0"), "BaseFont": Name("Foo"),
+                "CIDSystemInfo": {"Registry": b"Adobe", "Ordering": ordering.encode(), "Supplement": 0}, "DW": 1000,
+                "FontDescriptor": {"Type": Name("FontDescriptor"), "FontName": Name("Foo"), "Flags": 4, "FontBBox": [0, -200, 1000, 800], "Ascent": 800, "Descent": -200}},
+            3: {"Type": Name("Page"), "Parent": Ref(2), "MediaBox": [0, 0, 2000, 2000], "Contents": Ref(4), "Resources": {"Font": {"F1": Ref(7)}}},
+            4: Stream({}, b"BT /F1 4 Tf 20 1900 Td <" + data.hex().encode() + b"> Tj ET")}
+    return write_pdf(objs, 1), ""
+
+
 def shared_descendant_doc(r, variant):
     """two Type0 fonts sharing ONE descendant CIDFont object; only the first has a ToUnicode map (or its own Encoding)"""
     tu = Stream({}, b"begincmap 1 beginbfrange <0001> <0009> <0041> endbfrange endcmap")
@@ -181,6 +200,8 @@ def make_pool(ctx, k):
         pool.append(("font%d" % v,) + font_doc(ctx.sub("pool", k, "font", v), v))
     for v in range(4):
         pool.append(("cid%d" % v,) + cid_doc(ctx.sub("pool", k, "cid", v), v))
+    for v in range(8):
+        pool.append(("collection%d" % v,) + collection_doc(ctx.sub("pool", k, "collection", v), v))
     for v in range(4):
         pool.append(("shared%d" % v,) + shared_descendant_doc(ctx.sub("pool", k, "shared", v), v))
     for v in range(4):
